@@ -280,7 +280,7 @@ func Run(cfg hx.Config) error {
 	c := &checker{r: r, s: ctrl.NewSession(r)}
 	c.known()
 
-	nScen := cfg.N(12, 200)
+	nScen := cfg.N(30, 200)
 	nPairs := cfg.N(40, 300)
 	for i := 0; i < nScen && !r.Stop() && !c.s.Lost; i++ {
 		sc := genScenario(rnd)
@@ -325,7 +325,7 @@ func Run(cfg hx.Config) error {
 	cs := ctrl.NewSession(r)
 	cs.Quiet, cs.Concurrency = true, 4
 	cc := &checker{r: r, s: cs}
-	nConc := cfg.N(400, 8000)
+	nConc := cfg.N(1000, 8000)
 	for i := 0; i < nConc && !r.Stop() && !cs.Lost; i++ {
 		sc := scenario{Cfg: GenConfig(rnd), M: GenManifest(rnd, 4)}
 		if rnd.Chance(1, 3) {
